@@ -82,8 +82,13 @@ def _cons(x=None, y=None):
 
 
 STATIC = {'known': {'fa': 'pqr', 'sub.fb': 'pq', 'm1.K': 'pq', 'cons': 'xy'},
-          'unknown': ['unk', 'pkg.unk2', 'Unk3'],
+          # late_fn is registered by `import c15late` (LATE_IMPORT): unknown in the statements
+          # before that import, known in those after it
+          'unknown': ['unk', 'pkg.unk2', 'Unk3', 'late_fn'],
           'header': []}
+LATE_IMPORT = 'import c15late'
+LATE_NAME = 'late_fn'
+LATE_SOURCE = 'import gin\n\n@gin.configurable\ndef late_fn(p=None, zz=None):\n  return (p, zz)\n'
 DYN = {'known': {'dm.fa': 'pqr', 'dm.K': 'pq', 'c15dyn.other.gb': 'pq', 'dm.cons': 'xy'},
        'unknown': ['dm.unk', 'nomod.fn', 'c15dyn.other.Unk3', 'am.fn'],
        'header': ['from __gin__ import dynamic_registration', 'import c15dyn.mod as dm',
@@ -189,9 +194,12 @@ def check_case(case):
     labels.add('skip:collection')
     if not skip[1]:
       raise OutOfDomain('empty collection')
-  tmp = None
-  if mode == 'dynamic':
-    tmp = tempfile.mkdtemp(prefix='c15-')
+  tmp = tempfile.mkdtemp(prefix='c15-')
+  if mode != 'dynamic':
+    with open(os.path.join(tmp, 'c15late.py'), 'w') as f:
+      f.write(LATE_SOURCE)
+    sys.path.insert(0, tmp)
+  else:
     for rel, src in DYN_SOURCES.items():
       path = os.path.join(tmp, rel)
       os.makedirs(os.path.dirname(path), exist_ok=True)
@@ -212,23 +220,30 @@ def _check(case, nm, skip, labels):
   enabled = skip[0] != 'false' and (skip[0] == 'true' or bool(skip[1]))
 
   # ---- the independent deletion rule ----------------------------------------------------
-  reduced, placeholders, error_expected, n_skipped, n_applied = [], [], False, 0, 0
+  # `status[i]`: what the rule says about statement i; `unk_at[i]`: the names unknown where it stands
+  status, unk_at, error_expected, n_skipped, n_applied = [], [], False, 0, 0
+  cur_unknown = set(unknown)
   for s in stmts:
+    unk_at.append(frozenset(cur_unknown))
     if s[0] == 'import':
       if s[2]:                       # missing module
         labels.add('import-missing')
         if enabled:
           n_skipped += 1
+          status.append('skipped')
           continue
         error_expected = True
         break
-      reduced.append(s)
+      status.append('reduced')
+      if s[1] == LATE_IMPORT and LATE_NAME in cur_unknown:
+        cur_unknown.discard(LATE_NAME)
+        labels.add('import-registers-a-name')
       continue
     target = s[2] if s[0] in ('bind', 'block') else None
-    if target in unknown:
+    if target in cur_unknown:
       vals = [s[4]] if s[0] == 'bind' else [v for _, v in s[3]]
       if covered(target, skip) and any(
-          unscoped(r[1]) in unknown and not covered(unscoped(r[1]), skip)
+          unscoped(r[1]) in cur_unknown and not covered(unscoped(r[1]), skip)
           for v in vals for r in refs_in(v)):
         # a statement the rule deletes, whose value mentions an unknown name the list does not
         # cover: "deleted" and "still an error" both apply; the property does not rank them
@@ -236,20 +251,27 @@ def _check(case, nm, skip, labels):
       if covered(target, skip):
         n_skipped += 1
         labels.add('skipped:' + s[0])
+        status.append('skipped')
         continue
       error_expected = True
       break
     # applied statement: look at the references inside its value(s)
     values = [s[4]] if s[0] == 'bind' else [s[3]] if s[0] == 'macro' else [v for _, v in s[3]]
-    bad = [r for v in values for r in refs_in(v) if unscoped(r[1]) in unknown]
+    bad = [r for v in values for r in refs_in(v) if unscoped(r[1]) in cur_unknown]
     if any(not covered(unscoped(r[1]), skip) for r in bad):
       error_expected = True
       break
     if bad:
-      placeholders.append(s)
+      status.append('placeholder')
       labels.add('placeholder' + (':in-macro' if s[0] == 'macro' else ''))
     else:
-      reduced.append(s)
+      status.append('reduced')
+      if LATE_NAME not in cur_unknown and (target == LATE_NAME or any(
+          unscoped(r[1]) == LATE_NAME for v in values for r in refs_in(v))):
+        labels.add('name-known-after-import-used')
+        if any(LATE_NAME in u and st_ in ('skipped', 'placeholder')
+               for u, st_ in zip(unk_at, status[:-1])):
+          labels.add('same-name-unknown-before-known-after')
     n_applied += 1
 
   # A binding holding a placeholder still overrides earlier bindings of the same key (and is
@@ -265,15 +287,15 @@ def _check(case, nm, skip, labels):
     return []
 
   flat = []          # applied statements in order, blocks split into members
-  for s in stmts:
-    if s in reduced or s in placeholders:
+  for s, st_, unk in zip(stmts, status, unk_at):
+    if st_ in ('reduced', 'placeholder'):
       if s[0] == 'block':
         for a, v in s[3]:
-          bad = any(unscoped(r[1]) in unknown for r in refs_in(v))
+          bad = any(unscoped(r[1]) in unk for r in refs_in(v))
           flat.append((['bind', s[1], s[2], a, v], bad))
       else:
         vals = [s[4]] if s[0] == 'bind' else [s[3]] if s[0] == 'macro' else []
-        bad = any(unscoped(r[1]) in unknown for v in vals for r in refs_in(v))
+        bad = any(unscoped(r[1]) in unk for v in vals for r in refs_in(v))
         flat.append((s, bad))
   reduced = []
   for i, (s, bad) in enumerate(flat):
@@ -325,7 +347,15 @@ def _check(case, nm, skip, labels):
         raise Violation('binding-with-placeholder-dropped', f'{key}\n{text}')
   # With %macro uses around, an unbound macro can fail first (on use and at finalize); the
   # placeholder behaviour is only asserted on macro-free cases (the generator makes most so).
-  if any('mac' in repr(s) for s in stmts if s[0] != 'import'):
+  def uses_macro(v):
+    return v[0] == 'mac' or (v[0] in ('list', 'tuple') and any(uses_macro(x) for x in v[1])) or (
+        v[0] == 'dict' and any(uses_macro(k) or uses_macro(x) for k, x in v[1]))
+
+  def values_of(s):
+    return ([s[4]] if s[0] == 'bind' else [s[3]] if s[0] == 'macro' else
+            [v for _, v in s[3]] if s[0] == 'block' else [])
+
+  if any(uses_macro(v) for s in stmts for v in values_of(s)):
     placeholders_checked = []
     labels.add('placeholder-checks-skipped:macros-present')
   else:
@@ -344,6 +374,8 @@ def _check(case, nm, skip, labels):
         raise Violation('placeholder-wrong-exception', f'{type(e).__name__}: {e}')
   if placeholders_checked:
     labels.add('placeholder-use-and-finalize-checked')
+    if any(s[0] == 'macro' for s in placeholders_checked):
+      labels.add('finalize-checked:placeholder-in-macro-definition')
     try:
       gin.finalize()
       raise Violation('finalize-accepted-placeholder', text)
@@ -454,9 +486,22 @@ def strategy(draw):
       stmts.append(['macro', draw(st.sampled_from(['', 'sc'])), draw(st.sampled_from(['M', 'N'])),
                     draw(value(1))])
     elif k == 'import':
-      stmts.append(['import', draw(st.sampled_from(GOOD_IMPORTS)), False])
+      stmts.append(['import', draw(st.sampled_from(
+          GOOD_IMPORTS + ([LATE_IMPORT] * 3 if mode == 'static' else []))), False])
     else:
       stmts.append(['import', draw(st.sampled_from(MISSING_IMPORTS)), True])
+  if mode == 'static' and draw(st.integers(0, 4)) == 0:
+    # one name referenced (or configured) before the import that registers it and again after
+    ev = draw(st.booleans())
+    before = draw(st.sampled_from([['bind', '', 'cons', 'x', ['ref', LATE_NAME, ev]],
+                                   ['bind', 's', 'fa', 'p', ['list', [['ref', 's/' + LATE_NAME, ev]]]],
+                                   ['bind', '', LATE_NAME, 'p', ['lit', '1']]]))
+    after = draw(st.sampled_from([['bind', '', 'cons', 'x', ['ref', LATE_NAME, ev]],
+                                  ['bind', '', 'cons', 'y', ['tuple', [['ref', LATE_NAME, not ev]]]],
+                                  ['block', '', LATE_NAME, [['p', ['lit', '2']]]]]))
+    at = draw(st.integers(0, len(stmts)))
+    stmts[at:at] = [before, ['import', LATE_IMPORT, False], after]
+
   def no_known_calls(v):
     # evaluated references to known configurables could form call cycles (cons.x = @cons());
     # they are not what this property is about
